@@ -594,6 +594,25 @@ def job_faults(args):
             if rng.random() < 0.5 and not info.get("whole_file") and not info["cls"].startswith("duplicate_"):
                 # definitions in another order (callers before / after their callees, structs after their users)
                 mp_ = vgen.permute_definitions(mp_, rng)
+            if rng.random() < 0.2 and not info.get("whole_file") and not info["cls"].startswith("duplicate_"):
+                # a struct BEHIND all tasks whose attributes are named like the parameters and variables of the tasks
+                # (names are per definition: a message about a task's parameter must not be located in that struct)
+                names = []
+                for t_ in mp_["tasks"]:
+                    for x_, _ty in t_.get("ins", []):
+                        if x_ not in names:
+                            names.append(x_)
+                    for x_ in vgen.task_vars(t_):
+                        if x_ not in names:
+                            names.append(x_)
+                taken = {x["name"] for x in mp_["structs"]} | {x["name"] for x in mp_["tasks"]}
+                if names and "TailNames" not in taken:
+                    mp_ = copy.deepcopy(mp_)
+                    if not mp_.get("order"):
+                        mp_.pop("order", None)
+                        mp_["order"] = vgen.default_order(mp_)
+                    mp_["structs"].append({"name": "TailNames", "attrs": [[x_, "number"] for x_ in names[:8]]})
+                    mp_["order"] = list(mp_["order"]) + [["struct", len(mp_["structs"]) - 1]]
             text = vgen.print_program(mp_, lay)
             text = with_leading_lines(rng, mp_, text)
             target = vgen.resolve_target(mp_, info)
@@ -1099,6 +1118,59 @@ def job_run_accepted(args):
         signal.alarm(0)
 
 
+def job_deep_expression(args):
+    """C09, directed: a guard wrapped in N pairs of parentheses.  Whatever depth validation accepts, construction, start
+    and the evaluation of the guard must work at the SAME recursion limit (validation needs several frames per level,
+    the generator's label and the scheduler's evaluation one: an acceptance bound above the run bound is a crash)"""
+    import contextlib as _cl
+    import io as _io
+
+    seed, = args
+    rng = random.Random(seed)
+    signal.signal(signal.SIGALRM, _alarm)
+    signal.alarm(120)
+    try:
+        from pfdl_scheduler.model.struct import Struct
+        from pfdl_scheduler.scheduler import Event, Scheduler
+
+        n = rng.choice([20, 120, 200, 260, 400, 700, 1000, 1300, 1700, 2200])
+        kind = rng.choice(["cond", "while"])
+        inner = rng.choice(["r.n < 3", "r.n + 1 > 0", "!(r.n == 2)"])
+        e = "(" * n + inner + ")" * n
+        head = "Struct R\n    n: number\nEnd\n\nTask productionTask\n    Svc\n        Out\n            r: R\n"
+        if kind == "cond":
+            text = head + "    Condition\n        %s\n    Passed\n        Svc2\nEnd\n" % e
+        else:
+            text = head + "    Loop While %s\n        Svc2\n            Out\n                r: R\nEnd\n" % e
+        rec = {"seed": seed, "n": n, "kind": kind, "text": text, "accepted": False, "problem": None}
+        buf = _io.StringIO()
+        stage = "construction"
+        try:
+            with _cl.redirect_stdout(buf):
+                s = Scheduler(text, generate_test_ids=True, draw_petri_net=False)
+                svcs = []
+                s.register_callback_service_started(lambda a: svcs.append(a))
+                r = Struct()
+                r.name = "R"
+                r.attributes = {"n": 5}
+                s.register_variable_access_function(lambda name, ctx: r)
+                stage = "start"
+                ok = s.start()
+                rec["accepted"] = bool(ok)
+                if ok and svcs:
+                    stage = "fire_event"
+                    s.fire_event(Event("service_finished", {"service_uuid": svcs[0].uuid}))
+        except RecursionError:
+            rec["problem"] = "a guard in %d pairs of parentheses (%s) is accepted but %s raises RecursionError" % (n, kind, stage)
+        except Exception as ex:  # noqa: BLE001
+            rec["problem"] = "a guard in %d pairs of parentheses (%s): %s raises %s" % (n, kind, stage, type(ex).__name__)
+        return rec
+    except CaseTimeout:
+        return {"seed": seed, "timeout": True}
+    finally:
+        signal.alarm(0)
+
+
 def falsify(v):
     if isinstance(v, dict):
         if "q" in v:
@@ -1418,6 +1490,18 @@ def _run(ctx, pool, res):
                 add_violation(res, seen, "C16", "invalid_not_inert", "invalid program but %s" % t["inert"], t["text"])
             if t.get("file_problems"):
                 add_violation(res, seen, "C16", "file_revalidation", t["file_problems"][0], t["text"])
+    # deep expressions: accepted => runs at the same recursion limit --------------------------------------
+    if prop == "C09":
+        nd = na = 0
+        for r in pool.map(job_deep_expression, [(seed * 31 + i,) for i in range(40 if quick else 200)], chunksize=2):
+            if r.get("timeout"):
+                continue
+            nd += 1
+            n_eval += 1
+            na += 1 if r.get("accepted") else 0
+            if r.get("problem"):
+                add_violation(res, seen, "C09", "deep_expression", r["problem"], r["text"], {"drive": True, "answer_n": 5})
+        res["notes"].append("guards in 20..2200 pairs of parentheses: %d programs, %d accepted and driven" % (nd, na))
     # accepted programs run ------------------------------------------------------------------------------
     run_hist = {}
     for r in run_res:
